@@ -1,22 +1,218 @@
-PROPERTIES = ['C17', 'C02']
-BOUNDS = {'quick': 'wip', 'thorough': 'wip'}
-ASSUMPTIONS = []
+"""C17: etl::bitset<N> / etl::basic_bitset<N, Word> against std::bitset (boolean-array model, model.h).
+cfg: NBITS width, WSEL 0 = etl::bitset<N> (size_t words), 8/16/32/64 = basic_bitset<N, uintW_t>, SLEN string length,
+CHT character type (0 char, 1 wchar_t, 2 char16_t), SCAP capacity of the to_string result, KH history length."""
+import json
 import os
+
+PROPERTIES = ['C17', 'C02']
+BOUNDS = {
+    'quick': 'one operation from every state (all storage words symbolic, unused high bits zero): etl::bitset<N> for N in {1,7,8,9,31,32,33,63,64,65} '
+             '(every operation at {1,9,33,64,65}, a core list at the others); basic_bitset<N,uintW_t> for W=8: N in {7,8,9,17}, W=16: {15,16,17,33}, '
+             'W=32: {31,32,33,65}, W=64: {65} (core list); positions, values, operands symbolic over their full range; histories of 2 symbolic operations '
+             'from a bitset(unsigned long long) state (N in {9,33,65}; W=8 N=9,17); to_string with symbolic zero/one for N <= 33 and 65 (char; wchar_t, char16_t at N=9); '
+             'string constructors: N in {1,8,9} with string lengths 0..3 and N, N+1, N in {33,64,65} with lengths 3 (all overloads, pos/n/zero/one symbolic) and N (default-argument overloads), all characters symbolic',
+    'thorough': 'N in {1,7,8,9,31,32,33,63,64,65,127,128,129} x {etl::bitset, basic_bitset with uint8/16/32/64 words}, every operation; histories of 3 operations (4 for N <= 9); '
+                'to_string for every N (char), wchar_t/char16_t at N in {9,33}, capacity N and N+3; string constructors: N in {1,7,8,9} lengths 0..N+1, '
+                'N in {31,32,33,63,64,65} lengths {0,1,2,3,5,N} (+ N+1 for the symbolic-n overloads), N in {127,128,129} lengths {3,N} (default-argument overloads at N); wchar_t/char16_t at N=9',
+}
+ASSUMPTIONS = [
+    'C17: pre-states are written directly into the object: every storage word symbolic, the unused high bits of the last word zero (representation invariant). '
+    'Every query asserts the invariant again after the operation, so it holds after every history that starts from a constructor; q_hist additionally runs short histories with no assumption at all',
+    'C17: the model reads bit i as bit i % W of word i / W; q_observe checks exactly this reading through test()/operator[] for every state, so a wrong reading cannot hide a defect',
+    'C17: count()/all()/any()/none()/== are functions of all storage words, i.e. they do depend on the unused high bits if those could be set; they cannot (invariant above). '
+    'Observers defined bit by bit (test, operator[], to_ulong/to_ullong, to_string) are additionally checked with symbolic unused bits (q_observe_anypad, q_to_string_anypad)',
+    'C17: single-bit operations are called inside their documented precondition pos < size() (std throws out_of_range there); contract checks are compiled out (default build)',
+    'C17: string constructors: pos <= str.size() (std throws out_of_range), every character the constructor uses is zero or one (std throws invalid_argument); '
+    'C-string overloads with n == npos get non-zero characters and a terminator; with n != npos a block of exactly the stated length and n <= that length',
+    'C17: to_ulong/to_ullong only exist for N <= 64 in etl (requires-clause), so the overflow case of std (N > 64, high bits set) cannot be expressed; etl has no shift operators and no to_string() returning std::string',
+    'C17: count() is compared with the number of positions where test() is true (each test(i) is compared with the model in the same query); the sum is formed word by word so that the solver sees the same adder shape as the popcount loops',
+    'C17: oracle = boolean-array model harness/bitset/model.h written from [template.bitset]; validated natively against std::bitset (validate_model.cpp, run by spec.py) on random histories incl. string constructors and to_string',
+    'C02: the string constructors are called with effective length <= N (TETL_PRECONDITION(len <= size())); everything else as for C17',
+]
+_here = os.path.dirname(os.path.abspath(__file__))
+
+CORE = ['observe', 'observe_anypad', 'eq', 'ctor_default', 'ctor_ull', 'copy', 'assign', 'set_all', 'reset_all', 'flip_all', 'set', 'reset', 'flip',
+        'ref_set', 'ref_flip', 'ref_set_ref_self', 'ref_set_ref_other', 'and_eq', 'or_eq', 'xor_eq']
+MORE = ['set_dflt', 'ref_set_chain', 'ref_flip_chain', 'and_eq_self', 'or_eq_self', 'xor_eq_self', 'and', 'or', 'xor']
+BITSET_ONLY = ['not']
+TOSTR = ['to_string', 'to_string_anypad', 'to_string_dflt']
+STR_SYM = ['ctor_sv', 'ctor_sv_pn', 'ctor_sv_p', 'ctor_cs', 'ctor_cs_n']      # effective length can be made <= N by pos / n
+STR_DFLT = ['ctor_sv_dflt', 'ctor_cs_npos', 'ctor_cs_dflt']                   # effective length == SLEN
+ALLW = [1, 7, 8, 9, 31, 32, 33, 63, 64, 65]
+BIG = [127, 128, 129]
+
+
+def open_findings():
+    try:
+        import sys
+        sys.path.insert(0, os.path.join(os.path.dirname(os.path.dirname(_here)), 'engine'))
+        import runner
+        return {k['id'] for k in runner.load_findings().get('open', [])}
+    except Exception:
+        kp = os.path.join(_here, 'kf.json')
+        return {k['id'] for k in json.load(open(kp))} if os.path.exists(kp) else set()
+
+
+def mkq(entry, n, w, ub, tier, sn=None, cht=0, scap=None, kh=None):
+    cfg = {'NBITS': n, 'WSEL': w}
+    if sn is not None:
+        cfg['SLEN'] = sn
+    if cht:
+        cfg['CHT'] = cht
+    if scap is not None:
+        cfg['SCAP'] = scap
+    if kh is not None:
+        cfg['KH'] = kh
+    big = max(n, sn or 0, scap or 0, 8)     # 8: the smallest object is one 8-byte word (filled byte by byte)
+    # loops: driver/model loops run NBITS (or SLEN) times; the kernel loops over characters/bits are bounded by the same numbers;
+    # popcount intrinsics are modelled by a loop over the word width; memset/memcpy of the inplace string / of the object
+    us = {'ll_ctpop_64.0': 66, 'll_ctpop_32.0': 34, 'll_ctpop_16.0': 18, 'll_ctpop_8.0': 10,
+          'll_memset.0': big + 40, 'll_memcpy.0': big + 40, 'll_memmove.0': big + 40, 'll_memmove.1': big + 40}
+    return dict(entry='q_' + entry, cfg=cfg, unwind=big + 3, unwindset=us, solver=['kissat', 'cadical'],
+                budget=150 if tier == 'quick' else 900, ub=ub, nofunc=ub)
+
+
 def queries(tier, prop='C17'):
     ub = prop == 'C02'
+    if prop == 'C17':
+        validate()
+    opn = open_findings()
+    long_open = 'C17_str_ctor_longer_than_bits' in opn
     out = []
-    ns = [int(x) for x in os.environ.get('C17_N', '9').split(',')]
-    ws = [int(x) for x in os.environ.get('C17_W', '0').split(',')]
-    sns = [int(x) for x in os.environ.get('C17_SN', '3').split(',')]
-    ALL = ['observe','observe_anypad','eq','ctor_default','ctor_ull','copy','assign','set_all','reset_all','flip_all','set','set_dflt','reset','flip','ref_set','ref_set_chain','ref_flip','ref_flip_chain','ref_set_ref_self','ref_set_ref_other','and_eq','or_eq','xor_eq','and_eq_self','or_eq_self','xor_eq_self','and','or','xor','hist']
-    BO = ['not','to_string','to_string_anypad','to_string_dflt']
-    STR = ['ctor_sv','ctor_sv_pn','ctor_sv_p','ctor_sv_dflt','ctor_cs','ctor_cs_npos','ctor_cs_n','ctor_cs_dflt']
-    for n in ns:
-        for w in ws:
-            for e in ALL + (BO if w == 0 else []):
-                out.append(dict(entry='q_'+e, cfg={'NBITS': n, 'WSEL': w}, unwind=max(n,64)+2, unwindset={'ll_memset.0': n+40, 'll_memcpy.0': n+40}, solver=os.environ.get('C17_SOLVER','kissat'), budget=300, ub=ub, nofunc=ub))
-            if w == 0:
-                for sn in sns:
-                    for e in STR:
-                        out.append(dict(entry='q_'+e, cfg={'NBITS': n, 'WSEL': w, 'SLEN': sn}, unwind=max(n,64,sn)+2, unwindset={'ll_memset.0': n+40, 'll_memcpy.0': n+40}, solver=os.environ.get('C17_SOLVER','kissat'), budget=300, ub=ub, nofunc=ub))
+    seen = set()
+
+    def add(entry, n, w, **kw):
+        key = (entry, n, w, tuple(sorted(kw.items())))
+        if key in seen:
+            return
+        seen.add(key)
+        q = mkq(entry, n, w, ub, tier, **kw)
+        sn = kw.get('sn')
+        # a default-argument string constructor with a string longer than N lies wholly inside the open region (HARNESS.md)
+        if sn is not None and sn > n and entry in STR_DFLT and (long_open or ub):
+            return
+        out.append(q)
+
+    if os.environ.get('C17_N'):     # development aid: C17_N=65 C17_W=0,8 C17_SN=3 [C17_E=set,flip]
+        ents = os.environ.get('C17_E')
+        for n in [int(x) for x in os.environ['C17_N'].split(',')]:
+            for w in [int(x) for x in os.environ.get('C17_W', '0').split(',')]:
+                for e in CORE + MORE + ['hist'] + ((BITSET_ONLY + TOSTR) if w == 0 else []):
+                    if not ents or e in ents.split(','):
+                        add(e, n, w)
+                if w == 0:
+                    for sn in [int(x) for x in os.environ.get('C17_SN', '3').split(',')]:
+                        for e in STR_SYM + STR_DFLT:
+                            if not ents or e in ents.split(','):
+                                add(e, n, w, sn=sn, cht=int(os.environ.get('C17_CHT', '0')))
+        return out
+
+    if ub:
+        # C02: the UB/memory build of the same queries on a smaller grid (the kernels are the same code for every width)
+        for (n, w) in [(9, 0), (64, 0), (65, 0), (9, 8), (17, 8), (33, 32)] + ([(129, 0), (129, 8), (17, 16)] if tier != 'quick' else []):
+            for e in CORE + MORE + (BITSET_ONLY + ['to_string'] if w == 0 else []):
+                add(e, n, w)
+        for n in [8, 9] + ([64, 65] if tier != 'quick' else []):
+            for sn in sorted({0, 3, n}):
+                for e in STR_SYM + STR_DFLT:
+                    add(e, n, 0, sn=sn)
+        return out
+    if tier == 'quick':
+        full = [1, 9, 33, 64, 65]
+        for n in ALLW:
+            for e in CORE + BITSET_ONLY + (MORE if n in full else []):
+                add(e, n, 0)
+        for (w, ns) in [(8, [7, 8, 9, 17]), (16, [15, 16, 17]), (32, [31, 32, 33]), (64, [65])]:
+            for n in ns:
+                for e in CORE:
+                    add(e, n, w)
+            for e in MORE:
+                add(e, ns[-1], w)
+        for (n, w) in [(9, 0), (33, 0), (65, 0), (9, 8), (17, 8)]:
+            add('hist', n, w, kh=2)
+        for n in [1, 7, 8, 9, 31, 32, 33]:
+            for e in TOSTR:
+                add(e, n, 0)
+        add('to_string', 65, 0)
+        add('to_string', 9, 0, cht=1)
+        add('to_string', 9, 0, cht=2)
+        add('to_string', 9, 0, scap=12)
+        for n in [1, 8, 9]:
+            for sn in sorted({0, 1, 2, 3, n, n + 1}):
+                for e in STR_SYM + STR_DFLT:
+                    add(e, n, 0, sn=sn)
+        for n in [33, 64, 65]:
+            for e in STR_SYM + STR_DFLT:
+                add(e, n, 0, sn=3)
+            for e in STR_DFLT:
+                add(e, n, 0, sn=n)
+        for cht in (1, 2):
+            for e in ['ctor_sv', 'ctor_cs_npos']:
+                add(e, 9, 0, sn=3, cht=cht)
+    else:
+        for n in ALLW + BIG:
+            for e in CORE + MORE + BITSET_ONLY:
+                add(e, n, 0)
+            for w in (8, 16, 32):
+                for e in CORE + (MORE if n in (w + 1, 129) else []):
+                    add(e, n, w)
+            for w in (0, 8, 32):
+                add('hist', n, w, kh=4 if n <= 9 else 3)
+            for e in TOSTR:
+                add(e, n, 0)
+            add('to_string', n, 0, scap=n + 3)
+        for n in (65, 129):      # uint64_t words: the same instantiation as the one inside etl::bitset<N> (size_t)
+            for e in CORE + MORE:
+                add(e, n, 64)
+        for n in (9, 33):
+            for cht in (1, 2):
+                add('to_string', n, 0, cht=cht)
+        for n in [1, 7, 8, 9]:
+            for sn in sorted({0, 1, 2, 3, 4, n - 1, n, n + 1}):
+                for e in STR_SYM + STR_DFLT:
+                    add(e, n, 0, sn=sn)
+        for n in [31, 32, 33, 63, 64, 65]:
+            for sn in [0, 3, 5]:
+                for e in STR_SYM + STR_DFLT:
+                    add(e, n, 0, sn=sn)
+            for e in STR_DFLT + ['ctor_cs_n']:
+                add(e, n, 0, sn=n)
+            add('ctor_cs_n', n, 0, sn=n + 1)
+        for n in BIG:
+            for e in STR_SYM + STR_DFLT:
+                add(e, n, 0, sn=3)
+            for e in STR_DFLT:
+                add(e, n, 0, sn=n)
+        for cht in (1, 2):
+            for sn in (3, 9):
+                for e in STR_SYM + STR_DFLT:
+                    add(e, 9, 0, sn=sn, cht=cht)
     return out
+
+
+_validated = [False]
+
+
+def validate():
+    """DESIGN.md 1.7(3): the boolean-array model of model.h against std::bitset, natively (g++), random histories"""
+    if _validated[0] or os.environ.get('C17_SKIP_MODEL_VALIDATION'):
+        return
+    import shutil
+    import subprocess
+    import tempfile
+    _validated[0] = True
+    src = os.path.join(_here, 'validate_model.cpp')
+    if not os.path.exists(src):
+        return
+    d = tempfile.mkdtemp(prefix='c17_model_')
+    exe = os.path.join(d, 'validate_model')
+    try:
+        r = subprocess.run(['g++', '-std=c++20', '-O1', '-I' + _here, src, '-o', exe], capture_output=True, text=True, timeout=600)
+        if r.returncode != 0:
+            raise RuntimeError('bitset: validate_model.cpp does not compile: ' + r.stderr[-1500:])
+        r = subprocess.run([exe, os.environ.get('VERIF_SEED', '0') or '0'], capture_output=True, text=True, timeout=600)
+        if r.returncode != 0:
+            raise RuntimeError('bitset: boolean-array model disagrees with std::bitset: ' + (r.stdout + r.stderr)[-1500:])
+        print('[bitset] ' + r.stdout.strip().splitlines()[-1], flush=True)
+    finally:
+        shutil.rmtree(d, ignore_errors=True)
